@@ -274,10 +274,13 @@ def _get_subcircuits(
 
             if oper_type != 'NOT':
                 circuit_size += 1
-            is_output: bool = node in outputs_set
+            # A gate without users is kept as well: it is not in the cone of any
+            # other output, so the gates it uses could not be replaced otherwise.
+            is_output: bool = node in outputs_set or not users
             if not is_output:
                 for user in users:
-                    if user not in cut_nodes[cut]:
+                    # the leaves of the cut are not replaced, so they are outside
+                    if user not in cut_nodes[cut] or user in inputs:
                         is_output = True
                         break
             if is_output:
